@@ -520,6 +520,34 @@ def select(reg, prop, tier, only):
     return sorted(hs, key=lambda h: -h["timeout"])
 
 
+class MemBudget:
+    """Harnesses run in parallel; their resident sets add up on a 62 GB box without swap (an
+    out-of-memory kill shows up as `verdict FAILED without failed checks`, i.e. a spurious exit 2).
+    Each harness reserves a share of a 44 GB budget before it starts: 20 GB when its cap (`mem=`) is
+    20 GB or more (measured peaks of those: 12-17 GB), 5 GB otherwise (measured: 1-6 GB)."""
+
+    def __init__(self, total=int(os.environ.get("VERIF_MEM_BUDGET_GB", "44"))):
+        import threading
+        self.total, self.used, self.cv = total, 0, threading.Condition()
+
+    @staticmethod
+    def weight(h):
+        return 20 if h["mem_gb"] >= 20 else 5
+
+    def run(self, h, fn):
+        w = min(self.weight(h), self.total)
+        with self.cv:
+            while self.used + w > self.total:
+                self.cv.wait()
+            self.used += w
+        try:
+            return fn()
+        finally:
+            with self.cv:
+                self.used -= w
+                self.cv.notify_all()
+
+
 def cmd_check(prop, tier, only, jobs, keep):
     t0 = time.time()
     seed = int(os.environ.get("VERIF_SEED", "0") or 0)
@@ -539,8 +567,9 @@ def cmd_check(prop, tier, only, jobs, keep):
         log("== %s tier=%s: %d harnesses, %d jobs, repo fingerprint %s" % (prop, tier, len(hs), jobs, repo_fingerprint()))
         for cap in sorted(set(h["cap"] for h in hs)):
             scratch.get("kani", cap)
+        budget = MemBudget()
         with cf.ThreadPoolExecutor(max_workers=jobs) as ex:
-            futs = {ex.submit(run_harness, h, scratch, tier): h for h in hs}
+            futs = {ex.submit(budget.run, h, (lambda h=h: run_harness(h, scratch, tier))): h for h in hs}
             for fut in cf.as_completed(futs):
                 h = futs[fut]
                 res = fut.result()
